@@ -1,7 +1,7 @@
 // C30 — cheapest participant-level variant that still says something: ONE call of
 // check_missed_writer_deadline(now) on a participant with one writer / one instance, with
 // MpscSender::send, DcpsStatusCondition::add_communication_state and String::clone replaced by recorders
-// (support_part2.rs). Kept as a thorough-tier attempt; see the measured result in vlib/ptab/part2.py (C30).
+// (support_part2.rs). Kept (parked) as the documented attempt; see the measured result in vlib/ptab/part2.py (C30).
 use super::support_part2 as s2;
 use super::support_participant as sp;
 use crate::infrastructure::qos::DataWriterQos;
@@ -9,20 +9,21 @@ use crate::infrastructure::qos_policy::DeadlineQosPolicy;
 use crate::infrastructure::status::StatusKind;
 use crate::infrastructure::time::{Duration, DurationKind};
 
-// @check props=C30 tier=thorough
+// PARKED (not run by ./check): measured 237 s then MiniSat out of memory at 12 GB (2026-09-23, reach checks off).
+// @parked props=C30 tier=thorough
 // @desc one call of check_missed_writer_deadline(now), one writer with one instance last written at a, deadline D > 0, writer listener mask enabling OFFERED_DEADLINE_MISSED: total_count becomes 1 iff now - a > D, exactly then one mail is sent on the writer's listener sender and the writer's status condition gets OFFERED_DEADLINE_MISSED; otherwise nothing is signalled
 // @bounds one publisher, one writer, one instance, one call; a, now, D on the value grid seconds 0..=7 x nanoseconds {0, 1, 5*10^8, 10^9-1}
 // @assume stub: MpscSender::send records the sender object and forgets the mail (real channel: C34); stub: DcpsStatusCondition::add_communication_state records (condition, status) (real condition: C32); stub: String::clone returns an empty String (listener handle names are in no claim)
 // @assume topic/publisher/writer installed directly (support_part2.rs)
 // @enc DcpsDomainParticipant::check_missed_writer_deadline
-#[kani::proof]
-#[kani::solver(minisat)]
-#[kani::unwind(2)]
-#[kani::stub(critical_section::acquire, super::support_cs::cs_acquire)]
-#[kani::stub(critical_section::release, super::support_cs::cs_release)]
-#[kani::stub(crate::dcps::channels::mpsc::MpscSender::send, super::support_part2::mpsc_send_recorder)]
-#[kani::stub(crate::dcps::status_condition::DcpsStatusCondition::add_communication_state, super::support_part2::add_state_recorder)]
-#[kani::stub(<alloc::string::String as core::clone::Clone>::clone, super::support_part2::string_clone_stub)]
+// #[kani::proof]
+// #[kani::solver(minisat)]
+// #[kani::unwind(2)]
+// #[kani::stub(critical_section::acquire, super::support_cs::cs_acquire)]
+// #[kani::stub(critical_section::release, super::support_cs::cs_release)]
+// #[kani::stub(crate::dcps::channels::mpsc::MpscSender::send, super::support_part2::mpsc_send_recorder)]
+// #[kani::stub(crate::dcps::status_condition::DcpsStatusCondition::add_communication_state, super::support_part2::add_state_recorder)]
+// #[kani::stub(<alloc::string::String as core::clone::Clone>::clone, super::support_part2::string_clone_stub)]
 fn c30_writer_one_call() {
     let cap = sp::Capture::new();
     let mut p = sp::participant(&cap, 0);
